@@ -452,7 +452,11 @@ func otherRandom(r *core.Run) {
 			spec = envSpec{Mode: "syncing", Height: uint64(3 + rg.Intn(5))}
 		}
 		PexSeedMode = rg.Intn(4) == 0
-		defer func() { PexSeedMode = false }()
+		TxBroadcastOff = rg.Intn(4) == 0
+		if TxBroadcastOff {
+			c.Run.Count("environments_with_tx_broadcast_disabled", 1)
+		}
+		defer func() { PexSeedMode, TxBroadcastOff = false, false }()
 		rn := open(c, spec)
 		if rn == nil {
 			return
